@@ -308,3 +308,76 @@ def lifecycle_diff(req):
             break
     return {"evaluations": evals, "sequences": seqs, "failures": fails, "valid_texts": sum(valid.values()), "invalid_texts": len(texts) - sum(valid.values()),
             "bound": "all sequences of length <= %d over {new/recompile(e_i, t)} with 2 evaluators x %d texts; 4 calls on every evaluator after every step" % (maxlen, len(texts))}
+
+
+CORPUS_EXTRA = [
+    'def e{return "A" weighted 1,"B" weighted 1}',
+    'def e{salt:"s" splitters:a,b if a>=1 and not b in(1,2)or a<=-3{return 1 weighted 1}else if a!=2{return 2.5 weighted 0.5}else{return "x" weighted 2}}',
+    'def e{splitters:u if x not in("p","q"){if y=="z"{return "A" weighted 1}}else{return "B" weighted 1}}',
+]
+
+
+def corpus():
+    import glob
+    import os
+    from native.helper import REPO
+    texts = []
+    for f in sorted(glob.glob(os.path.join(REPO, "tests", "unit", "test_programs", "*.pyab"))):
+        with open(f) as fh:
+            texts.append(fh.read())
+    return texts + CORPUS_EXTRA
+
+
+@register("trivia_diff")
+def trivia_diff(req):
+    """bounded stand-in for C08: insert trivia between every pair of adjacent tokens (and at both ends) of corpus
+    programs; the parsed AST must not change"""
+    import contextlib
+    import io
+    import random
+    import pyab_experiment.language.lexer as lx
+    from pyab_experiment.utils.wraper_functions import parse_source
+    rnd = random.Random(req.get("seed", 0))
+    pool = req.get("pool", [" ", "\n", "\t \n", "/* x */", "/* a */ /* b */", "// c\n", "/* ' \" // * if def */", "/*\n*\n*/", "/**/", "/* * / */", "//\n", "/* a */\t/* b */ // c\n"])
+    fails, evals, limit = [], 0, req.get("limit", 3)
+    sink = io.StringIO()
+
+    def parse(t):
+        with contextlib.redirect_stdout(sink), contextlib.redirect_stderr(sink):
+            try:
+                return ("ok", parse_source(t))
+            except BaseException as e:   # noqa
+                return ("raise", type(e).__name__)
+    progs = 0
+    for text in corpus():
+        base = parse(text)
+        if base[0] != "ok" or base[1] is None:
+            continue
+        progs += 1
+        with contextlib.redirect_stdout(sink):
+            spans = [(t.index, t.end) for t in lx.ExperimentLexer().tokenize(text)]
+        cuts = sorted({0, len(text)} | {e for _, e in spans} | {s for s, _ in spans})
+        # adjacent-token positions where inserting trivia cannot glue or split tokens: only at token boundaries
+        # that are already separated (a boundary between two tokens, or text ends)
+        bounds = [c for c in cuts]
+        for c in bounds:
+            for tr in pool:
+                # a // comment must be terminated by a newline, which the pool entries provide
+                v = text[:c] + " " + tr + " " + text[c:]
+                evals += 1
+                r = parse(v)
+                if not (r[0] == "ok" and r[1] == base[1]):
+                    if len(fails) < limit:
+                        fails.append({"program": text[:80], "inserted": tr, "at": c, "variant": v[:300], "observed": r[0] if r[0] != "ok" else "different AST"})
+        for _ in range(req.get("random_variants", 20)):
+            v, off = text, 0
+            for c in sorted(rnd.sample(bounds, min(len(bounds), 6))):
+                tr = " " + rnd.choice(pool) + " "
+                v = v[:c + off] + tr + v[c + off:]
+                off += len(tr)
+            evals += 1
+            r = parse(v)
+            if not (r[0] == "ok" and r[1] == base[1]) and len(fails) < limit:
+                fails.append({"program": text[:80], "variant": v[:400], "observed": r[0] if r[0] != "ok" else "different AST"})
+    return {"evaluations": evals, "programs": progs, "failures": fails,
+            "bound": "%d corpus programs x every token boundary x %d trivia strings + random multi-insertions" % (progs, len(pool))}
